@@ -6,6 +6,7 @@ import AcraModel.CrossClient.Token
 import AcraModel.CrossClient.Tls
 import AcraModel.CrossClient.BoxLaws
 import AcraModel.CrossClient.Box45
+import AcraModel.CrossClient.NoPanic
 import AcraModel.Crypto.Shim
 /-!
 # C02 — data protected for one client is never revealed under another identity
@@ -127,28 +128,34 @@ theorem cross_client_decrypt {c : CryptoOps} (hl : SealLaws c) (hc : SealCommit 
 
 /-- **Transparent column path** (`EnvelopeDetector.OnColumn` with B's decrypt callback). If at every
 position of the column where a container is recognised, that container is one A can read or one B cannot
-read anyway, the column comes back byte for byte as it is stored and no error is raised.
-`_partial`: the statement "the scan does not panic" is missing; it is a key-independent fact about
-`ExtractSerializedContainer` (C03 `onColumn_no_panic`). -/
-theorem cross_client_column_partial {c : CryptoOps} (hl : SealLaws c) (hc : SealCommit c) {kvA kvB : KeyView}
+read anyway, the column comes back byte for byte as it is stored: no error, no panic, nothing replaced.
+In particular `pre ++ protect … a … ++ suf` is unchanged for every `pre`/`suf` in which B can read nothing. -/
+theorem cross_client_column {c : CryptoOps} (hl : SealLaws c) (hc : SealCommit c) {kvA kvB : KeyView}
     (hsep : KeysSeparate c kvA kvB) {buf : Bytes}
     (hpos : ∀ i, i ≤ buf.length → ∀ cont adv, extractContainer (buf.drop i) = .ok (adv, cont) →
       (∃ m, process c kvA cont = .ok m) ∨ (∀ m, process c kvB cont ≠ .ok m)) :
-    onColumn [decryptCallback c kvB] buf ≠ .fatal ∧
-    ∀ out hit, onColumn [decryptCallback c kvB] buf = .ok out hit → out = buf := by
-  have hscan := scan_unreadable (c := c) (kv := kvB) buf.length buf (Nat.le_refl _) (by
-    intro i hi cont adv he m
+    ∃ hit, onColumn [decryptCallback c kvB] buf = .ok buf hit := by
+  unfold onColumn
+  split
+  · exact ⟨false, rfl⟩
+  · apply scan_all_same [decryptCallback c kvB] buf.length buf (Nat.le_refl _)
+    intro i hi cont adv he cb hcb
+    simp only [List.mem_singleton] at hcb
+    subst hcb
+    apply decryptCallback_same
+    intro m
     rcases hpos i hi cont adv he with ⟨m', hm'⟩ | hno
     · rw [process_cross hl hc hsep hm']
       simp
-    · exact hno m)
-  unfold onColumn
-  split
-  · refine ⟨by simp, ?_⟩
-    intro out hit h
-    cases h
-    rfl
-  · exact hscan
+    · exact hno m
+
+/-- the same for identities of a key store with arbitrary fresh histories -/
+theorem cross_client_column_history {c : CryptoOps} (hl : SealLaws c) (hc : SealCommit c) (hm : MsgCommit c)
+    {pairs syms : History} (hp : Fresh pairs) (hs : Fresh syms) {a b : Bytes} (hab : a ≠ b) {buf : Bytes}
+    (hpos : ∀ i, i ≤ buf.length → ∀ cont adv, extractContainer (buf.drop i) = .ok (adv, cont) →
+      (∃ m, process c (storeOf c pairs syms a) cont = .ok m) ∨ (∀ m, process c (storeOf c pairs syms b) cont ≠ .ok m)) :
+    ∃ hit, columnAs c (storeOf c pairs syms) b buf = .ok buf hit :=
+  cross_client_column hl hc (storeOf_separate hm hp hs hab) hpos
 
 /-! ## blind index -/
 
@@ -423,7 +430,7 @@ set_option maxRecDepth 100000 in
 /-- a value from before a rotation, translator entry point -/
 example : decryptAs box45 exStore exA .block exOldBlock = .ok exMsg ∧ decryptAs box45 exStore exB .block exOldBlock = .err := by decide
 
-/-- the position hypothesis of `cross_client_column_partial`, as a decidable check -/
+/-- the position hypothesis of `cross_client_column`, as a decidable check -/
 def exPosOk (kvA kvB : KeyView) (buf : Bytes) (i : Nat) : Bool :=
   match extractContainer (buf.drop i) with
   | .ok (_, cont) => (process box45 kvA cont).isOk || !(process box45 kvB cont).isOk
@@ -449,7 +456,7 @@ theorem exPos_sound (kvA kvB : KeyView) (buf : Bytes)
 def exColumn : Bytes := [37, 37] ++ exBlock ++ [34, 34, 34, 34, 0]
 
 set_option maxRecDepth 100000 in
-/-- the position hypothesis of `cross_client_column_partial` holds for a column with A's container between
+/-- the position hypothesis of `cross_client_column` holds for a column with A's container between
 a `%%` prefix and a suffix that starts like an AcraBlock (the scan itself is a well-founded recursion the
 kernel does not unfold by `decide`; its results on such columns are compared with the real code by the
 correspondence ops `col` / `colcompat`) -/
